@@ -90,7 +90,9 @@ def collect(ctx: Ctx, profile: str, quick: bool):
             events.append({"ev": "load", "text": True, "isjson": False, "json": f["json"], "isliteral": False,
                            "astext": project(s), "out": out, "same": True, "intact": intact(x, s)})
             meta.append({"fn": "decode", "carrier": c, "text": s})
-    for x in (None, 1, 1.5, True, [1], {"a": 1}, (1, 2), object(), env.obj("D1")(a=1, b="s")):
+    import array
+    for x in (None, 1, 1.5, True, [1], {"a": 1}, (1, 2), object(), env.obj("D1")(a=1, b="s"), array.array("i", [1, 2, 3]), array.array("d", [1.5]),
+              range(3), frozenset({1})):
         for fname, fn in (("load", serdes.load), ("decode", serdes.decode)):
             try:
                 r = fn(x); out = {"k": "ok", "r": project(r)}; same = r is x
